@@ -25,7 +25,7 @@ RULE = ('cases = N in 2..8 concurrent associations on one server AE (and, in hal
         'mid-transfer x schedule policy {uniform, round-robin-biased, starvation-biased} x '
         'fine-grain pre-emption on/off; oracle: every client\'s outcome equals what it would be '
         'alone; non-trivial = every case; distinct = distinct scheduler signatures'
-        '; hot family (shared entity reconfigured in gated rounds, pre-emption in the configuration code); storage-commitment operations; 25 % with one more connection that never sends anything; warm family: burst of long associations right behind one that has just ended')
+        '; hot family (shared entity reconfigured in gated rounds, pre-emption in the configuration code); storage-commitment operations; 25 % with one more connection that never sends anything; warm family: burst of long associations right behind one that has just ended; dirstore family: 3-4 associations storing one instance UID into the directory-backed entity at once')
 ASSUMPTIONS = ['the reference outcome of a client alone is computed by the harness from what the '
                'client sent (data echoes, statuses, match lists), not by a second run',
                'pre-emption granularity: source lines of the listed functions; not bytecodes']
@@ -61,6 +61,16 @@ def cases(tier, seed):      # noqa: F811
     for i in range(30 if tier == 'quick' else 1500):
         yield dict(warm=True, n=rnd.choice([2, 3, 5]), gap=rnd.choice([0.2, 1.0, 3.0]),
                    hold=rnd.choice([12.0, 30.0]), seed=seed * 100237 + i)
+    # three or four associations store instances with ONE instance UID into the entity's
+    # directory at the same time, twice each (so names are taken already): each is answered
+    # with its own data in its own file (C15's hot scenario, run here for the entity)
+    for i in range(40 if tier == 'quick' else 2000):
+        yield dict(dirstore=True, inner=dict(
+            ts=rnd.choice(['ile', 'ele']), cmax=rnd.choice([1024, 16384]),
+            smax=rnd.choice([1024, 16384]), recv='dir', source='ds',
+            nclients=rnd.choice([3, 3, 4]), nstores=2, same_uid=True, outcome='success',
+            size=rnd.choice([0, 10, 100]), fault=None, align=False, mixed_ts=True, hot=True,
+            seed=seed * 100271 + i), seed=seed * 100271 + i)
     # (the bulk comes after so that a wall-clock budget cut never drops the family above)
     for c in _base_cases(tier, seed):
         yield c
@@ -215,6 +225,12 @@ def run_case(case):
         return _hang_case(case)
     if case.get('warm'):
         return _warm_case(case)
+    if case.get('dirstore'):
+        from . import c15
+        r = c15.run_case(case['inner'])
+        for v_ in r.get('violations', []):
+            v_['sig'] = 'C20 directory-storage ' + v_['sig'].replace('C15 ', '')
+        return r
     from pynetdicom2 import applicationentity, sopclass, exceptions
     import pynetdicom2
     import pydicom
